@@ -33,6 +33,11 @@ type W struct {
 	// Twin: a second, independent channel (capacity TwinCap) with one producer
 	// that sends two values and closes, and one consumer that drains to null.
 	// Values of the two channels must never mix.
+	// L2 only: values are arrays (origami arrays are handles in every context,
+	// also through plain assignment, so the sender does not touch them after
+	// send), and/or all coroutines are spawned from inside another coroutine.
+	ArrayPayload bool `json:"array_payload,omitempty"`
+	Nested       bool `json:"nested_spawn,omitempty"`
 	Twin    bool `json:"twin,omitempty"`
 	TwinCap int  `json:"twin_cap,omitempty"`
 }
@@ -43,10 +48,24 @@ func gen(r *verifsim.Rng, tier string) (any, hx.Sched) {
 		w.Level = "L2"
 	}
 	np := 1 + r.Intn(3)
+	maxSends := 3
+	// swarm: now and then unusual sizes (large buffers, long streams, many senders)
+	if r.Intn(8) == 0 {
+		w.Cap = verifsim.Pick(r, []int{5, 7, 8, 9, 15, 16, 17, 32, 64})
+	}
+	if r.Intn(8) == 0 {
+		maxSends = verifsim.Pick(r, []int{6, 10, 20})
+	}
+	if r.Intn(10) == 0 {
+		np = 4 + r.Intn(3)
+	}
 	for i := 0; i < np; i++ {
-		w.Producers = append(w.Producers, 1+r.Intn(3))
+		w.Producers = append(w.Producers, 1+r.Intn(maxSends))
 	}
 	nc := r.Intn(4)
+	if np > 3 && r.Intn(2) == 0 {
+		nc = 4 + r.Intn(3)
+	}
 	for i := 0; i < nc; i++ {
 		if r.Intn(3) == 0 {
 			w.Consumers = append(w.Consumers, -1)
@@ -65,6 +84,8 @@ func gen(r *verifsim.Rng, tier string) (any, hx.Sched) {
 	}
 	s := hx.SwarmSched(r, focus)
 	if w.Level == "L2" {
+		w.ArrayPayload = r.Intn(3) == 0
+		w.Nested = r.Intn(4) == 0
 		// the interpreter passes thousands of yield points per operation:
 		// keep preemptions sparse outside the focus files
 		s.MeanGap = verifsim.Pick(r, []int64{30, 100, 300, 1000, 3000})
@@ -134,6 +155,16 @@ func shrink(x any) []any {
 	if w.Twin {
 		c := cp()
 		c.Twin = false
+		out = append(out, c)
+	}
+	if w.ArrayPayload {
+		c := cp()
+		c.ArrayPayload = false
+		out = append(out, c)
+	}
+	if w.Nested {
+		c := cp()
+		c.Nested = false
 		out = append(out, c)
 	}
 	return out
